@@ -7,7 +7,8 @@ PROPS["C18"] = prop(
     "one case = (adapter operation, arguments, result script for its SELECT/UPDATE/DELETE/INSERT answers, fault position k, fault kind in {statement error, "
     "duplicate key on an INSERT, connection drop}); every case first runs fault-free to learn the statement count n, so 1 <= k <= n; "
     "non-trivial = k > 1 and at least one data-modifying statement succeeded before statement k; distinct = distinct (operation, arguments, script, k, kind) by FNV-64; "
-    "the Enum units enumerate every k and every kind for a fixed scenario list (argument variants x one-at-a-time script deviations, pairs in the thorough tier)",
+    "the Enum units enumerate every k and every kind for a fixed scenario list (argument variants x one-at-a-time and pairwise script deviations, deduplicated by the shape of the fault-free trace); "
+    "the Stall units (thorough only) stall every position of every default scenario beyond sql_timeout",
     "For every transactional operation of the MySQL and PostgreSQL adapters (UserCreate, UserDelete, UserUpdate, UserUpdateTags, TopicCreate, TopicCreateP2P, TopicShare, "
     "TopicDelete, TopicUpdate, SubsUpdate, SubsDelete, SubsDelForUser, MessageDeleteList, DeviceUpsert, DeviceDelete, CredUpsert, CredDel, FileFinishUpload, "
     "FileDeleteUnused, FileLinkAttachments) the real driver stack (go-sql-driver/database/sql/sqlx, pgx/pgxpool) talks to an in-process fake server that fails "
@@ -22,6 +23,8 @@ PROPS["C18"] = prop(
     "5/C18", "sql-fault",
     [Unit("TestC18MySQLEnum", C18MY, rapid=False, tags="mysql", shards_quick=1, shards_thorough=1, n_quick=4000, n_thorough=1000000, timeout_quick=300, timeout_thorough=3600),
      Unit("TestC18PostgresEnum", C18PG, rapid=False, tags="postgres", shards_quick=1, shards_thorough=1, n_quick=4000, n_thorough=1000000, timeout_quick=300, timeout_thorough=3600),
+     Unit("TestC18MySQLStall", C18MY, rapid=False, tags="mysql", shards_quick=1, shards_thorough=1, timeout_quick=120, timeout_thorough=1800),
+     Unit("TestC18PostgresStall", C18PG, rapid=False, tags="postgres", shards_quick=1, shards_thorough=1, timeout_quick=120, timeout_thorough=1800),
      Unit("TestC18MySQL", C18MY, tags="mysql", quick=1500, thorough=40000, shards_quick=3, shards_thorough=8, timeout_quick=300, timeout_thorough=3600),
      Unit("TestC18Postgres", C18PG, tags="postgres", quick=1500, thorough=40000, shards_quick=3, shards_thorough=8, timeout_quick=300, timeout_thorough=3600)],
     ["a duplicate-key error on INSERT INTO subscriptions is tolerated by createSubscription (turned into an UPDATE; PostgreSQL: after ROLLBACK TO SAVEPOINT) and a "
@@ -30,5 +33,8 @@ PROPS["C18"] = prop(
      "a transaction ended by the loss of its connection counts as ended (the server rolls it back), even when the adapter never finishes its client-side transaction object",
      "fault-free runs may legitimately end in ROLLBACK with an error (not found, duplicate, malformed): then no COMMIT may have happened",
      "single-statement operations (AuthAddRecord, AuthUpdRecord, MessageSave, CredConfirm) are included only for 'the failure is reported' and to make panics on the error "
-     "path visible as class panic:<op>; they are never counted as non-trivial and a panic alone is not a C18 violation"],
+     "path visible as class panic:<op>; they are never counted as non-trivial and a panic alone is not a C18 violation",
+     "Stall units (thorough tier only, real time): statement k is answered 1.5 s late with sql_timeout=1; because database/sql and pgx end the transaction from a "
+     "watcher goroutine, the server is given up to 10 s of real time after the call returned before 'transaction still open' is judged; when the stalled statement is "
+     "the COMMIT itself only 'no open transaction' and 'nil => exactly one COMMIT' are demanded"],
 )
